@@ -445,7 +445,7 @@ fn run_worker<P: Property>(p: Arc<P>, tier: Tier, seed: u64, worker: u32, cases:
 }
 
 pub fn write_replay<P: Property>(p: &P, args: &RunArgs, case: &P::Case, v: &Violation) -> PathBuf {
-    let dir = verif_root().join("replays").join(p.id());
+    let dir = std::env::var("VERIF_REPLAYS_DIR").map(PathBuf::from).unwrap_or_else(|_| verif_root().join("replays")).join(p.id());
     let _ = std::fs::create_dir_all(&dir);
     let case_json = serde_json::to_value(case).unwrap_or(Value::Null);
     let h = hash_bytes(serde_json::to_string(&case_json).unwrap_or_default().as_bytes());
